@@ -17,6 +17,7 @@ import (
 	"net/http"
 	"net/http/pprof"
 	"os"
+	"runtime"
 	"strconv"
 	"strings"
 	"sync"
@@ -185,6 +186,25 @@ func main() {
 		q := r.URL.Query()
 		hdsClient.SetServerData(q.Get("id"), q.Get("secret"))
 		w.Write([]byte("ok"))
+	})
+	// secret rotation storm: the secret goes A, none, B, none, ... in a tight loop
+	// for the given number of milliseconds (what a re-registration does, as fast
+	// as the client allows), then ends with no secret
+	adm.HandleFunc("/verif/secretflip", func(w http.ResponseWriter, r *http.Request) {
+		q := r.URL.Query()
+		ms, _ := strconv.Atoi(q.Get("ms"))
+		deadline := time.Now().Add(time.Duration(ms) * time.Millisecond)
+		seq := []string{q.Get("a"), "", q.Get("b"), ""}
+		n := 0
+		for time.Now().Before(deadline) {
+			hdsClient.SetServerData("srv", seq[n%len(seq)])
+			n++
+			if n%64 == 0 {
+				runtime.Gosched()
+			}
+		}
+		hdsClient.SetServerData("srv", "")
+		fmt.Fprint(w, n)
 	})
 	adm.HandleFunc("/verif/ticks", func(w http.ResponseWriter, r *http.Request) {
 		q := r.URL.Query()
